@@ -188,6 +188,84 @@ package core
 //@   pure
 
 // ---------------------------------------------------------------------------------------------
+// Test outcome summaries (C26)
+//
+// An execution passed if it has no failure, error or skip; a case succeeded if some execution passed
+// (flaky allowance), was skipped if some execution was skipped.
+//@ spec execOK(x TestExecution) bool = x.Failure == nil && x.Error == nil && x.Skip == nil
+//@ spec hasSuccess(xs []TestExecution) bool = exists i int :: 0 <= i && i < len(xs) && execOK(xs[i])
+//@ spec hasSkip(xs []TestExecution) bool = exists i int :: 0 <= i && i < len(xs) && xs[i].Skip != nil
+//@ spec hasFailure(xs []TestExecution) bool = exists i int :: 0 <= i && i < len(xs) && xs[i].Failure != nil
+//@ spec hasError(xs []TestExecution) bool = exists i int :: 0 <= i && i < len(xs) && xs[i].Error != nil
+//
+//@ func (TestCase).Success
+//@   requires testCase != nil
+//@   modifies nothing
+//@   invariant "range testCase.Executions" none: forall j int :: 0 <= j && j < idx ==> !execOK(testCase.Executions[j])
+//@   ensures spec [C26]: (result != nil) == hasSuccess(testCase.Executions)
+//@   ensures witness [C26]: result != nil ==> execOK(deref(result))
+//
+//@ func (TestCase).Skip
+//@   requires testCase != nil
+//@   modifies nothing
+//@   invariant "range testCase.Executions" none: forall j int :: 0 <= j && j < idx ==> testCase.Executions[j].Skip == nil
+//@   ensures spec [C26]: (result != nil) == hasSkip(testCase.Executions)
+//
+//@ func (TestCase).Failures
+//@   requires testCase != nil
+//@   modifies nothing
+//@   invariant "range testCase.Executions" some: (len(failures) > 0) == (exists j int :: 0 <= j && j < idx && testCase.Executions[j].Failure != nil)
+//@   ensures spec [C26]: (len(result) > 0) == hasFailure(testCase.Executions)
+//
+//@ func (TestCase).Errors
+//@   requires testCase != nil
+//@   modifies nothing
+//@   invariant "range testCase.Executions" some: (len(errors) > 0) == (exists j int :: 0 <= j && j < idx && testCase.Executions[j].Error != nil)
+//@   ensures spec [C26]: (len(result) > 0) == hasError(testCase.Executions)
+//
+// A target passes exactly when every case succeeded (in some execution) or was skipped.
+//@ func (TestCases).AllSucceeded
+//@   invariant "range testCases" all: forall j int :: 0 <= j && j < idx ==> hasSuccess(testCases[j].Executions) || hasSkip(testCases[j].Executions)
+//@   ensures spec [C26]: result == (forall i int :: 0 <= i && i < len(testCases) ==> hasSuccess(testCases[i].Executions) || hasSkip(testCases[i].Executions))
+//
+// Executions of the same case (same name AND same class name) are merged; others are kept apart.
+//@ func findMatchingTestCase
+//@   requires testCase != nil && testCases != nil
+//@   invariant "range *testCases" none: forall j int :: 0 <= j && j < idx ==> \
+//@      !(deref(testCases)[j].Name == testCase.Name && deref(testCases)[j].ClassName == testCase.ClassName)
+//@   ensures found [C26]: result >= 0 ==> result < len(deref(testCases)) && deref(testCases)[result].Name == testCase.Name && \
+//@      deref(testCases)[result].ClassName == testCase.ClassName
+//@   ensures first [C26]: forall j int :: 0 <= j && (result < 0 || j < result) && j < len(deref(testCases)) ==> \
+//@      !(deref(testCases)[j].Name == testCase.Name && deref(testCases)[j].ClassName == testCase.ClassName)
+//@   ensures range [C26]: result >= -1
+//
+// Outcome counts: each counts the cases of its class (recursive count specifications).
+//@ spec isSkipped(c TestCase) bool = hasSkip(c.Executions)
+//@ spec isPass(c TestCase) bool = !hasFailure(c.Executions) && !hasError(c.Executions) && !hasSkip(c.Executions)
+//@ spec isError(c TestCase) bool = !hasSuccess(c.Executions) && !hasSkip(c.Executions) && hasError(c.Executions)
+//@ spec isFailure(c TestCase) bool = !hasSuccess(c.Executions) && !hasSkip(c.Executions) && !hasError(c.Executions) && hasFailure(c.Executions)
+//@ spec rec countSkipped(cs TestCases, n int) int = ite(n <= 0, 0, countSkipped(cs, n - 1) + ite(isSkipped(cs[n - 1]), 1, 0))
+//@ spec rec countPass(cs TestCases, n int) int = ite(n <= 0, 0, countPass(cs, n - 1) + ite(isPass(cs[n - 1]), 1, 0))
+//@ spec rec countError(cs TestCases, n int) int = ite(n <= 0, 0, countError(cs, n - 1) + ite(isError(cs[n - 1]), 1, 0))
+//@ spec rec countFailure(cs TestCases, n int) int = ite(n <= 0, 0, countFailure(cs, n - 1) + ite(isFailure(cs[n - 1]), 1, 0))
+//
+//@ func (TestSuite).Skips
+//@   requires testSuite != nil
+//@   invariant "range testSuite.TestCases" count: skips == countSkipped(testSuite.TestCases, idx)
+//@   ensures spec [C26]: result == countSkipped(testSuite.TestCases, len(testSuite.TestCases))
+//@ func (TestSuite).Passes
+//@   invariant "range testSuite.TestCases" count: passes == countPass(testSuite.TestCases, idx)
+//@   ensures spec [C26]: result == countPass(testSuite.TestCases, len(testSuite.TestCases))
+//@ func (TestSuite).Errors
+//@   requires testSuite != nil
+//@   invariant "range testSuite.TestCases" count: errors == countError(testSuite.TestCases, idx)
+//@   ensures spec [C26]: result == countError(testSuite.TestCases, len(testSuite.TestCases))
+//@ func (TestSuite).Failures
+//@   requires testSuite != nil
+//@   invariant "range testSuite.TestCases" count: failures == countFailure(testSuite.TestCases, idx)
+//@   ensures spec [C26]: result == countFailure(testSuite.TestCases, len(testSuite.TestCases))
+
+// ---------------------------------------------------------------------------------------------
 // Coverage merging (C27)
 //
 //@ func MergeCoverageLines
